@@ -819,9 +819,12 @@ def gen_generic(rng, tier, i):
     n = rng.choice([1, 2, 3, 5, 8])
     durs = [rng.choice([rng.randint(1, 40), rng.randint(1, 1000), 33, 100, 7]) for _ in range(n)]
     speed = rng.choice([3.0, 0.7, 1.1, 2.5, 0.3, 7.0, 1.0, rng.choice([0.1, 10.0])])
+    run_ms = rng.choice([3000, 20000, 60000])
+    while run_ms > 3000 and run_ms * speed * n / sum(durs) > 15000:
+        run_ms //= 2             # keep the trace (two rows per executed step) well below the harness' output cap
     return {"durs_ms": durs, "speed": speed, "loops": rng.choice([-1, 5, 40]),
             "t0_ms": rng.choice([0, 1, 333, rng.randint(0, 5000)]),
-            "run_ms": rng.choice([3000, 20000, 60000])}
+            "run_ms": run_ms}
 
 
 def run_generic(case):
